@@ -418,8 +418,19 @@ func (rn *Runner) Run(prop string, streams []Stream) (*Report, error) {
 						}
 						rep.Samples = append(rep.Samples, map[string]any{"stream": j.s.Name(), "case_no": j.caseNo, "lines": smp})
 					}
-					if viol != nil && len(rep.Violations) < 20 {
-						rep.Violations = append(rep.Violations, *viol)
+					if viol != nil {
+						if len(rep.Violations) < 20 {
+							rep.Violations = append(rep.Violations, *viol)
+						} else if !viol.NoFailingInput {
+							// the list is full: a violation with a failing input displaces one
+							// that is only a model / implementation difference
+							for i := range rep.Violations {
+								if rep.Violations[i].NoFailingInput {
+									rep.Violations[i] = *viol
+									break
+								}
+							}
+						}
 					}
 					mu.Unlock()
 				}
